@@ -25,16 +25,6 @@ constexpr double TOL_CONV = 1e-5;
 // padded-DFT route: element-wise relative to ||k||_1 * ||x||_inf                    (DESIGN: 1e-4; observed 3.8e-7)
 constexpr double TOL_DFTCONV = 2e-5;
 
-inline bool
-no_exclude()
-{
-  static const bool b = [] {
-    const char* e = std::getenv("VERIF_NO_EXCLUDE");
-    return e && std::string(e) == "1";
-  }();
-  return b;
-}
-
 // =============================================================================================
 // kind 0: transforms
 template <int D>
@@ -183,13 +173,9 @@ check_dft(const json& c)
     if (r.failed())
       return r;
   }
-  // known finding C19-F4: inverse_fourier_1d_for_real_data_corrupting_input tests "n % 2" on the HALF length and so calls error()
-  // for a real array of (even) length 2, which fourier_for_real_data accepts
-  if (x.len[2] == 2 && !no_exclude())
-    {
-      vf::stats().count("excluded:C19:F4:inverse real-data transform with last-dimension length 2");
-      return Result::pass();
-    }
+  // length 2 in the last dimension (half length 1) is part of the search: regression replays/C19/fixed_F4_*.json
+  if (x.len[2] == 2)
+    vf::stats().cls("dft real data: last dimension of length 2");
   {
     const stir::Array<D, float> back = stir::inverse_fourier_for_real_data(H, sign);
     Nd bn;
@@ -365,9 +351,8 @@ check_dftconv(const json& c)
       if (dlen[q] > P[q] || b[q] - a[q] + 1 > P[q] || b[q] < a[q] || dlen[q] < 1 || olen[q] < 1)
         return Result::reject("data or kernel longer than the padded length");
     }
-  // known finding C19-F4 (see check_dft): the inverse real-data transform refuses length 2, so a kernel of padded length 2 in
-  // the last dimension is accepted by set_kernel() and then fails with error() when the filter is applied
-  // (cases of that class are rejected before check() through known_signature(), see c19_fourier_filters.cxx)
+  if (P[2] == 2)
+    vf::stats().cls("dftconv: padded length 2 in the last dimension");
   // the true kernel on [a,b]
   int klen[3];
   for (int q = 0; q < 3; ++q)
@@ -464,9 +449,8 @@ struct ConvND<3>
   typedef stir::ArrayFilter3DUsingConvolution<float> type;
 };
 
-//! known finding C19-F1: is_trivial() of the 2-D/3-D classes looks only at the outermost kernel length/min index and at
-//! element [0][0]([0]): a kernel with outer range [0,0] is taken for the identity when its element at the origin is 1,
-//! and the origin element is read even when the inner ranges do not contain 0 (out-of-range read).
+//! kernels with outer range [0,0] whose origin element is 1 (but which have more elements) or whose inner ranges do not
+//! contain the origin: once mistaken for the identity by is_trivial() (regression replays/C19/fixed_F1_*.json); class statistic only
 template <int D>
 inline bool
 f1_class(const Nd& KT)
@@ -503,7 +487,8 @@ check_convnd(const json& c)
     }
   Nd KT(kmin, klen);
   fill_kernel(KT, c.at("kseed").get<uint64_t>(), c.at("kpat").get<int>());
-  // known finding C19-F1: cases with f1_class(KT) are rejected before check() through known_signature()
+  if (f1_class<D>(KT))
+    vf::stats().cls(vf::cat("conv", D, "d kernel with outer range [0,0] and origin element 1 / origin outside the inner ranges"));
   Nd x(dmin, dlen);
   fill_data(x, c.at("seed").get<uint64_t>(), c.at("pat").get<int>());
   vf::stats().cls(vf::cat("conv", D, "d"));
